@@ -81,6 +81,10 @@ EXPLANATION += (
     ' Round 13: n_assignments is handed on unchanged along the election call chain; only choose_node clamps it, by the number of vote columns (R-FWD/candidates-unchanged).'
 )
 
+EXPLANATION += (
+    ' Round 14: the HDF5 writer stores each confidence field as the record holds it (codec rule of C15).'
+)
+
 RULE_TEXT = (
     "one obligation per arithmetic relation (quotient, divisor, slice "
     "bound, constant, loop shape); non-trivial when the construct exists")
@@ -131,7 +135,10 @@ def check(ctx):
                                 'type_assignment.election',
                                 'type_assignment.election_runner'):
             check_falsy_numeric_default(ctx, fi_)
-
+    # a correlation is a number in [-1, 1] only for finite profiles: the
+    # CPM divisor replaces zero totals (rule of C07)
+    from .C07 import check_cpm_formula
+    check_cpm_formula(ctx)
 
 
 def _choose_node(ctx):
@@ -779,6 +786,14 @@ def check_settings_forwarded_unchanged(
                 for x, a in args.items():
                     n += 1
                     term = ex.expand(a, node.id)
+                    # (a cast of the parameter is the parameter)
+                    while isinstance(term, tuple) and term \
+                            and term[0] == 'call' and T.call_name(term) in (
+                                'int', 'float', 'str', 'bool', 'Path',
+                                'deepcopy', 'copy', 'list', 'tuple',
+                                'dict') and len(term[2]) == 1 \
+                            and not term[3]:
+                        term = term[2][0]
                     ok = term == ('param', x)
                     ctx.touch(fi)
                     ctx.ob(rule, f'{fi.qual}:{x}#{n - 1}', fi.loc(c), ok,
